@@ -17,6 +17,7 @@ import (
 var gatingSlots = newSlotPool(20, 29500, 4)
 
 func gatingCase(c *h.Case) {
+	begin(c)
 	rng := c.Rng
 	slot, blk, ok := gatingSlots.get()
 	defer gatingSlots.put(slot)
@@ -120,11 +121,11 @@ healthCheck.maxFailed = %d
 		return
 	}
 	if err := cli.Svc.UpdateAllConfigurer(pcs, vcs); err != nil {
-		c.Violation("reload-refused", "UpdateAllConfigurer returned %v", err)
+		viol(c, "reload-refused", "UpdateAllConfigurer returned %v", err)
 		return
 	}
 	if !h.Eventually(convergeGrace, func() bool { return !liveNames(gone.name)[gone.name] }) {
-		c.Violation("not-converged-stale-proxy-registered", "%s was removed from the configuration, %v later the server still holds it", gone.name, convergeGrace)
+		viol(c, "not-converged-stale-proxy-registered", "%s was removed from the configuration, %v later the server still holds it", gone.name, convergeGrace)
 		return
 	}
 	time.Sleep(300 * time.Millisecond) // a probe in flight may still complete
@@ -136,11 +137,11 @@ healthCheck.maxFailed = %d
 	for i, p := range gps {
 		n := p.hb.nProbes()
 		if p == gone && n > before[i]+1 {
-			c.Violation("health-probes-continue-after-stop", "%s was removed by a reload: %d further health probes reached its backend within 2.5 s", p.name, n-before[i])
+			viol(c, "health-probes-continue-after-stop", "%s was removed by a reload: %d further health probes reached its backend within 2.5 s", p.name, n-before[i])
 			return
 		}
 		if p != gone && n == before[i] && !h.Eventually(15*time.Second, func() bool { return p.hb.nProbes() > before[i] }) {
-			c.Violation("health-probes-of-unchanged-entry-stopped", "%s was not touched by the reload but its backend saw no health probe for 17 s (interval 1 s)", p.name)
+			viol(c, "health-probes-of-unchanged-entry-stopped", "%s was not touched by the reload but its backend saw no health probe for 17 s (interval 1 s)", p.name)
 			return
 		}
 	}
@@ -167,7 +168,7 @@ func gatingProxy(c *h.Case, cli *h.Client, name string, hb *hback, maxFailed int
 		c.Data["probes:"+name] = probes
 		c.Data["server_events:"+name] = regEvents(name)
 		c.Data["phases:"+name] = phaseHistory(name)
-		c.Violation(key, format, args...)
+		viol(c, key, format, args...)
 	}
 
 	// A: unhealthy from the start: nothing may reach the server
